@@ -16,7 +16,7 @@ CASES_PER_FILE = 60
 CASE_FILE_BYTES = 120000
 TIERS = {"quick": {"n": 1400}, "thorough": {"n": 16000}}
 RULE = ("class under test OrderedMultiDict (3/4) or its subclass urlutils.QueryParamDict (1/4); histories of 1-40 (thorough: 1-70) public operations over two live OrderedMultiDicts, 2-5 key tokens and "
-        "3-6 value tokens, arguments rotated over list/tuple/generator/iterator/list-of-lists, dict/OrderedDict/"
+        "3-6 value tokens (20 hashable objects of varied types + an unhashable list and dict as values), arguments rotated over list/tuple/generator/iterator/list-of-lists, dict/OrderedDict/"
         "mappingproxy/keys()+__getitem__ object, the other OMD, the object itself, kwargs; returned and passed "
         "containers are mutated after the call; ~5 % malformed calls (iterable ending in a non-pair / unhashable key, "
         "non-iterable addlist argument, unhashable key to 14 methods); non-trivial = some key reached >= 2 pairs and a later operation "
@@ -49,12 +49,14 @@ def translators(repo):
 # tokens -> pairwise unequal hashable python objects with eval()-able reprs; token 0 is None
 TOK = [None, "a", (1, 2), "k0", 3.5, "b", frozenset([7]), -1, "key", (), 17, "zz", b"y", 99, "q", ("t", None),
        2.5, "", (0,), -0.5]
+N_HASHABLE = len(TOK)                     # tokens 0..19 may be keys or values
+TOK += [[7], {"z": 1}]                    # tokens 20, 21: UNHASHABLE objects, used as values only (Spec.unhashable)
 JUNK_T = 63
 JUNK = "~junk~"
 IDENT = [t for t, o in enumerate(TOK) if isinstance(o, str) and o.isidentifier()]
-INV = {o: t for t, o in enumerate(TOK)}
+INV = {o: t for t, o in enumerate(TOK[:N_HASHABLE])}
 INV[JUNK] = JUNK_T
-assert len(INV) == len(TOK) + 1
+assert len(INV) == N_HASHABLE + 1 and N_HASHABLE == 20
 
 
 def obj(t):
@@ -68,7 +70,12 @@ class Unrepresentable(Exception):
 def tok(o):
     try:
         t = INV[o]
-    except (KeyError, TypeError):
+    except KeyError:
+        raise Unrepresentable(repr(o)[:80])
+    except TypeError:                     # unhashable: one of the unhashable value tokens, by type and equality
+        for t in range(N_HASHABLE, len(TOK)):
+            if type(TOK[t]) is type(o) and TOK[t] == o:
+                return t
         raise Unrepresentable(repr(o)[:80])
     if type(obj(t)) is not type(o):
         raise Unrepresentable(repr(o)[:80])
@@ -160,7 +167,7 @@ def _shadow(regs, r, op):
 
 def _gen_case(rng, tier):
     nk = rng.choice([2, 2, 3, 3, 4, 5])
-    keys = rng.sample(range(len(TOK)), nk)
+    keys = rng.sample(range(N_HASHABLE), nk)
     if rng.random() < 0.8 and not set(keys) & set(IDENT):
         keys[0] = rng.choice(IDENT)
     vals = rng.sample(range(len(TOK)), rng.choice([3, 4, 6]))
@@ -301,7 +308,7 @@ def _gen_case(rng, tier):
                 elif m < 0.8 and ks:
                     # same size, one key exchanged
                     del d[rng.choice(ks)]
-                    d[rng.choice(range(len(TOK)))] = V()
+                    d[rng.choice(range(N_HASHABLE))] = V()
                 elif m < 0.9:
                     d[K()] = V()
                 else:
@@ -375,9 +382,12 @@ def _map_arg(l, kind):
     return KeysObj(d)
 
 
-def _spoil(x):
-    """mutate a container the implementation returned or was given"""
+def _spoil(x, deep=False):
+    """mutate a container the implementation returned or was given (deep: also the value lists of a
+    todict(multi=True) result; never a value object itself)"""
     try:
+        if any(x is o for o in TOK[N_HASHABLE:]):
+            return
         if isinstance(x, list):
             if len(x) % 2:
                 x.append(JUNK)
@@ -385,9 +395,10 @@ def _spoil(x):
                 del x[:]
                 x.append((JUNK, JUNK))
         elif type(x) is dict:
-            for v in x.values():
-                if isinstance(v, list):
-                    v.append(JUNK)
+            if deep:
+                for v in x.values():
+                    if isinstance(v, list):
+                        v.append(JUNK)
             x[JUNK] = [JUNK]
     except Exception:
         pass
@@ -402,7 +413,7 @@ def _view(d):
     td = d.todict(multi=True)
     v = [[[tok(k), tok(v)] for k, v in it], [[tok(k), [tok(x) for x in vs]] for k, vs in td.items()]]
     _spoil(it)
-    _spoil(td)
+    _spoil(td, deep=True)
     return v
 
 
@@ -477,7 +488,7 @@ def _do(OMD, regs, op):
     if n == "popall":
         k = obj(op["k"])
         x = d.popall(k) if op["d"] is None else d.popall(k, obj(op["d"]))
-        if isinstance(x, list):
+        if isinstance(x, list) and not (op["d"] is not None and x is obj(op["d"])):
             spoil.append(x)
             return ["list", [tok(v) for v in x]], spoil
         return val(x), spoil
@@ -542,7 +553,7 @@ def _do(OMD, regs, op):
     if n == "getlist":
         k = obj(op["k"])
         x = d.getlist(k) if op["d"] is None else d.getlist(k, obj(op["d"]))
-        if isinstance(x, list):
+        if isinstance(x, list) and not (op["d"] is not None and x is obj(op["d"])):
             spoil.append(x)
             return ["list", [tok(v) for v in x]], spoil
         return val(x), spoil
@@ -555,7 +566,10 @@ def _do(OMD, regs, op):
         x = d.todict(multi=op["multi"]) if op["multi"] or op["how"] else d.todict()
         if type(x) is not dict:
             return UNREP, spoil
-        spoil.append(x)
+        if op["multi"]:
+            spoil.append(("deep", x))
+        else:
+            spoil.append(x)
         if op["multi"]:
             return ["multi", [[tok(k), [tok(v) for v in vs]] for k, vs in x.items()]], spoil
         return _c_pairs(list(x.items())), spoil
@@ -668,7 +682,10 @@ def run_impl(case):
             raise
         if op.get("mut"):
             for x in spoil:
-                _spoil(x)
+                if isinstance(x, tuple) and len(x) == 2 and x[0] == "deep":
+                    _spoil(x[1], deep=True)
+                else:
+                    _spoil(x)
         snap = None
         if op["snap"]:
             try:
